@@ -58,7 +58,7 @@ pub fn run(args: &Args) {
     rep.extra("grid_points", json!(walls.len() * walls.len() * logicals.len()));
 
     let miri = cfg!(miri);
-    let n = if miri { args.n(300, 1000) } else { args.n(100_000, 3_000_000) };
+    let n = if miri { args.n(300, 1000) } else { args.n(500_000, 5_000_000) };
     for i in 0..n {
         let mut rng = Rng::fork(args.seed, i);
         let tw = match rng.below(3) {
@@ -91,7 +91,7 @@ pub fn run(args: &Args) {
     }
 
     // Chains: successive increments under a clock that is held, moves forward and steps back.
-    let chains = if miri { args.n(5, 20) } else { args.n(500, 20_000) };
+    let chains = if miri { args.n(5, 20) } else { args.n(3_000, 50_000) };
     for i in 0..chains {
         let mut rng = Rng::fork(args.seed ^ 0x18c, i);
         let mut clock = 1_000_000 + rng.below(1 << 30);
